@@ -8,6 +8,7 @@ import H2V.Lemmas.CodecWriter
 import H2V.Lemmas.CodecDecode
 import H2V.Lemmas.CodecRoundTrip
 import H2V.Lemmas.CodecWire
+import H2V.Lemmas.CodecShutdown
 /-
   C09 / C12 — frame codec (namespace `H2V.Lemmas.Codec`).
 
